@@ -304,9 +304,12 @@ Section Model.
         (rs1, p2)
     end.
 
+  (** all external branches first, then all internal ones *)
+  Definition scope_bkeys : list bkey :=
+    map (fun s => (s, false)) scopes ++ map (fun s => (s, true)) scopes.
+
   Definition extend_found_addresses (keys : list key) (st : rstate * pstate) : rstate * pstate :=
-    let st1 := fold_left (fun st s => extend_found_branch (s, false) keys st) scopes st in
-    fold_left (fun st s => extend_found_branch (s, true) keys st) scopes st1.
+    fold_left (fun st k => extend_found_branch k keys st) scope_bkeys st.
 
   (** the part of recoverScopedAddresses after a match *)
   Definition process_response (h : N) (r : fresp) (st : rstate * pstate) : rstate * pstate :=
